@@ -149,7 +149,8 @@ def install(engine):
     }
     oc["BaseSegment"] = {
         "fields": {"raw": "str", "raw_upper": "str", "type": "str", "segments": "list[BaseSegment]", "is_whitespace": "bool", "is_comment": "bool", "is_meta": "bool"},
-        "methods": {},
+        # is_type(*names): some Boolean the contracts know nothing about (a finer classification than the is_* flags)
+        "methods": {"is_type": lambda eng, st, recv, args, kwargs, node: opaque_call("bool", False)(eng, st)},
     }
     em = engine.ext_models
     em["os.environ.get"] = x_environ_get
